@@ -40,7 +40,8 @@ PREFIXES = ('p', 'q', 'w')
 XSD = f'''<xs:schema xmlns:xs="{XS}" targetNamespace="{U[0]}" xmlns:t="{U[0]}" elementFormDefault="qualified">
 <xs:complexType name="Any"><xs:sequence><xs:any processContents="lax" minOccurs="0" maxOccurs="unbounded"/></xs:sequence>
 <xs:anyAttribute processContents="lax"/></xs:complexType>
-<xs:element name="r" type="t:Any"/><xs:element name="e" type="t:Any"/></xs:schema>'''
+<xs:element name="r" type="t:Any"/><xs:element name="e" type="t:Any"/>
+<xs:element name="a" type="t:Any"/><xs:element name="b" type="t:Any"/><xs:element name="x" type="t:Any"/></xs:schema>'''
 MODES = ('stacked', 'collapsed', 'root-only')
 
 
@@ -459,6 +460,31 @@ def run_docs(spec, res):
                                           f'jsonml/{mode}: encode(decode(d)) differs: {why}; encoded {str(back)[:160]}')
                         else:
                             res.count('roundtrip:agree')
+        # data objects: tags are kept expanded, attribute names are mapped with the namespace context of their own element
+        for mode in MODES:
+            case = {'doc': text, 'converter': 'dataelement', 'mode': mode, 'namespaces': None}
+            res.case(nt)
+            res.count('roundtrip_dataelement:runs')
+            try:
+                obj = schema.to_objects(text, xmlns_processing=mode)
+                out = obj.encode(validation='lax', xmlns_processing=mode)
+            except xmlschema.XMLSchemaException as e:
+                res.violation(f'roundtrip-dataelement-raised:{type(e).__name__}', case, str(e)[:200])
+                continue
+            elem = out[0] if isinstance(out, tuple) else out
+            back = etree_shape(elem) if elem is not None else None
+            if back != src:
+                why = tree_diff(src, back, tree)
+                nested = has_nested_or_default_decls(text)
+                res.count('roundtrip_dataelement:differs:' + why)
+                # (an unprefixed attribute under a default namespace is encoded into that namespace, and an element of no
+                # namespace under a default namespace is not matched: both listed; documents that only use prefixes,
+                # declared or re-bound anywhere, must come back exactly)
+                res.violation('roundtrip-dataelement:' + ('document-with-default-namespace-declarations' if 'xmlns="' in text
+                                                          else 'prefixed-declarations-only:' + why), case,
+                              f'dataelement/{mode}: encode(to_objects(d)) differs: {why}; encoded {str(back)[:160]}')
+            else:
+                res.count('roundtrip_dataelement:agree')
         if len(res.samples) < 2:
             res.sample({'doc': text[:400], 'flags': flags})
         for k, v in flags.items():
